@@ -18,6 +18,10 @@ HERE = os.path.dirname(os.path.abspath(__file__))
 if HERE not in sys.path:
     sys.path.insert(0, HERE)
 
+import simlock  # noqa: E402
+
+simlock.install()  # before anything imports y0
+
 warnings.filterwarnings("ignore")
 logging.disable(logging.CRITICAL)
 
